@@ -158,6 +158,87 @@ def order_laws(ctx, flavor, ops, obs):
                     ctx.violation("Compare equal sets compare differently against a third", sx([flavor, ops]), m)
 
 
+def final_pairs(p):
+    d = {}
+    for k, v in p:
+        d[k] = v
+    return d
+
+
+def equality_oracle(ctx, gen_pairs):
+    """Equal (both flavours, both directions) and dep.Type.Compare == 0 hold exactly when the two sets hold the
+    same flags and key/value pairs: pairs of sets related by sub-set, one changed value, reordering, identity."""
+    rng = ctx.rng
+    cases = []
+    for _ in range(ctx.scale(1500, 40000)):
+        flavor = rng.randrange(2)
+        flags, valued = (DEP_FLAGS, DEP_VALUED) if flavor == 0 else (VER_FLAGS, VER_VALUED)
+        a = gen_pairs(flags, valued, True)
+        r = rng.random()
+        if r < 0.2:
+            b = list(a)
+            rng.shuffle(b)
+        elif r < 0.45:
+            b = list(a) + gen_pairs(flags, valued, True)[:rng.choice([1, 1, 2])]      # a is contained in b
+        elif r < 0.6 and a:
+            b = list(a)
+            del b[rng.randrange(len(b))]                                              # b is contained in a
+        elif r < 0.8 and a:
+            b = [list(x) for x in a]
+            i = rng.randrange(len(b))
+            if b[i][0] > 0:
+                b[i][1] = b[i][1] + b"x"                                              # one value differs
+            else:
+                b[i][0] = rng.choice(flags)
+        else:
+            b = gen_pairs(flags, valued, True)
+        if rng.random() < 0.5:
+            a, b = b, a
+        cases.append([flavor, a, b])
+    outs = ctx.impl("attr_equal", [sx(c) for c in cases])
+    for c, o in zip(cases, outs):
+        r = parse_sx(o)
+        if r and r[0] == b"panic":
+            ctx.violation("Equal/Compare panics", sx(c))
+            continue
+        eab, eba, cmp_, da, db = r
+        same = (da == db)
+        ctx.count("equal_oracle:%s" % ("same" if same else "different"))
+        ctx.nontriv(("eq", sx(c)))
+        name = ["dep.Type", "version.AttrSet"][c[0]]
+        if bool(eab) != same or bool(eba) != same:
+            ctx.violation("%s.Equal is not 'same flags and same key/value pairs' (or is not symmetric)" % name, sx(c),
+                          observed={"a.Equal(b)": eab, "b.Equal(a)": eba}, required=int(same))
+        if c[0] == 0 and (cmp_ == 0) != same:
+            ctx.violation("dep.Type.Compare is 0 for different sets or non-zero for equal ones", sx(c), observed=cmp_, required=int(same))
+
+
+def parse_twice_oracle(ctx, dep_keep, texts_ver):
+    """a parsed set is a value of its own: writing into the result of a parse must not change what the next
+    parse of the same text returns (nor may two parses share storage)"""
+    rng = ctx.rng
+    cases = []
+    for p, t in dep_keep[:ctx.scale(600, 10000)]:
+        text = parse_sx(t) if isinstance(t, str) else t
+        cases.append([0, text, rng.choice([k for k in DEP_VALUED if k != 11] + DEP_FLAGS), rng.choice([b"zz", b"runtime", b"k"])])
+    for t in texts_ver[:ctx.scale(600, 10000)]:
+        text = parse_sx(t) if isinstance(t, str) else t
+        cases.append([1, text, rng.choice(VER_VALUED + VER_FLAGS), rng.choice([b"zz", b"k"])])
+    outs = ctx.impl("parse_twice", [sx(c) for c in cases])
+    for c, o in zip(cases, outs):
+        r = parse_sx(o)
+        if r[0] != b"ok":
+            ctx.count("parse_twice:" + r[0].decode())
+            if r[0] == b"err2":
+                ctx.violation("a text that parsed once does not parse the second time", sx(c), observed=o)
+            continue
+        ctx.count("parse_twice:ok")
+        ctx.nontriv(("p2", sx(c)))
+        if r[1] != r[2]:
+            ctx.violation("writing into a parsed %s changes what the next parse of the same text returns (shared storage)"
+                          % ["dependency type", "version attribute set"][c[0]], sx(c), observed=sx(r[2]), required=sx(r[1]))
+
+
 def run(ctx):
     rng = ctx.rng
     # ---- key names (tables vs stringer)
@@ -257,6 +338,7 @@ def run(ctx):
     # versiontest.String -> ParseString
     sets = [gen_pairs(VER_FLAGS, VER_VALUED, rng.random() < 0.7) for _ in range(nr)]
     texts, _ = ctx.correspond("ver_write", [sx(p) for p in sets])
+    ver_texts = list(texts)
     back = ctx.impl("ver_parse", texts)
     want = ctx.impl("attr_history", [sx([1, [[0, 0, k, v] for k, v in p] + [[7, 0]]]) for p in sets])
     for p, t, b, w in zip(sets, texts, back, want):
@@ -300,3 +382,5 @@ def run(ctx):
     ctx.sample({"kind": "dep_roundtrip", "pairs": sx(keep[0][0]), "text": keep[0][1]} if keep else "none")
     # dep.Type.String (pipe form) correspondence
     ctx.correspond("dep_string", [sx(p) for p in sets])
+    equality_oracle(ctx, gen_pairs)
+    parse_twice_oracle(ctx, keep, texts_ver=[t for t in ver_texts if t])
